@@ -12,6 +12,7 @@ CONSTANTS
   Bug = {}
   GenMode = "C02"
   GenDepth = 0
+  HandoffEnds = {"a", "b"}
   ScriptIds = {0}
 INVARIANT EmitTrace
 CHECK_DEADLOCK FALSE
